@@ -76,6 +76,12 @@ def run(ctx):
                     if a_ and a_[0] == ME:
                         reqd.add(a_[1])
             if not reqd:
+                # a named const array: the driver exports its evaluated value as printed by rustc
+                import re as _re
+                for y in [q["coll"]] + list(subterms(q["coll"])):
+                    if isinstance(y, tuple) and y and y[0] == "const" and isinstance(y[2], tuple) and y[2] and y[2][0] == "raw":
+                        reqd.update(_re.findall(r"MetadataEntry::(\w+)", str(y[2][1])))
+            if not reqd:
                 # vec![..] is filled through raw stores: take the entries whose file names are computed on the way to the quantifier
                 for p in ps:
                     for e in p.calls(TOF):
